@@ -37,6 +37,10 @@ func getChainUnaryHandler(interceptors []grpc.UnaryServerInterceptor, curr int, 
 
 // Same as grpc.ChainUnaryInterceptor()
 func ChainUnaryInterceptor(interceptors ...grpc.UnaryServerInterceptor) ServerOption {
+	if len(interceptors) == 0 {
+		// as in grpc: an empty chain intercepts nothing
+		return serverOptFunc(func(s *Server) {})
+	}
 	return serverOptFunc(func(s *Server) {
 		s.unaryInterceptor = func(ctx context.Context, req interface{}, info *grpc.UnaryServerInfo, handler grpc.UnaryHandler) (resp interface{}, err error) {
 			return interceptors[0](ctx, req, info, getChainUnaryHandler(interceptors, 0, info, handler))
@@ -55,6 +59,10 @@ func getChainStreamHandler(interceptors []grpc.StreamServerInterceptor, curr int
 
 // Same as grpc.ChainStreamInterceptor()
 func ChainStreamInterceptor(interceptors ...grpc.StreamServerInterceptor) ServerOption {
+	if len(interceptors) == 0 {
+		// as in grpc: an empty chain intercepts nothing
+		return serverOptFunc(func(s *Server) {})
+	}
 	return serverOptFunc(func(s *Server) {
 		s.streamInterceptor = func(srv interface{}, ss grpc.ServerStream, info *grpc.StreamServerInfo, handler grpc.StreamHandler) error {
 			return interceptors[0](srv, ss, info, getChainStreamHandler(interceptors, 0, info, handler))
